@@ -2,6 +2,7 @@
 observations, Gallina printers for the service model (coq/Model/Service.v)."""
 import math
 import os
+import time
 import tempfile
 
 from harness import boot
@@ -22,6 +23,8 @@ import datetime  # noqa: E402
 
 OWNERS = {1: 'o1', 2: 'o2'}
 STUDIES = {0: '', 1: 'a_b', 2: 'a_b2', 3: 'axb'}   # 'a_b' is a prefix of 'a_b2'; as an SQL LIKE pattern it also matches 'axb'
+RPC_TIMEOUT = float(os.environ.get('VERIF_RPC_TIMEOUT', '') or 45)
+HUNG = []
 CLIENTS = {1: 'w1', 2: 'w2', 3: 'w3'}
 METRICS = {1: 'm1', 2: 'm2'}
 TSTATE = {1: 'REQUESTED', 2: 'ACTIVE', 3: 'STOPPING', 4: 'SUCCEEDED', 5: 'INFEASIBLE'}
@@ -421,9 +424,11 @@ def apply_rpc(serv, holder, rpc):
       req = vs.UpdateMetadataRequest(name=study_name(o, sid))
       for kv in smd:
         req.delta.add().metadatum.CopyFrom(mk_kv(kv))
-      spell = {'': '%d', 'z': '0%d', 'p': '+%d', 's': '%d '}[rpc[5] if len(rpc) > 5 else '']     # another accepted spelling of the trial ids
-      for tid, kv in tmd:
-        u = req.delta.add(trial_id=spell % tid)
+      var_ = rpc[5] if len(rpc) > 5 else ''
+      spell = {'': '%d', 'z': '0%d', 'p': '+%d', 's': '%d ', 'm': None}[var_]     # another accepted spelling of the trial ids
+      for i_, (tid, kv) in enumerate(tmd):
+        # 'm': the spellings alternate inside one request (the same trial is named in several ways)
+        u = req.delta.add(trial_id=(spell if spell is not None else ['%d', '0%d', '%d', '+%d'][i_ % 4]) % tid)
         u.metadatum.CopyFrom(mk_kv(kv))
       r = serv.UpdateMetadata(req)
       return ('Done', 'RpMdError' if r.error_details else 'RpEmpty', None)
@@ -631,7 +636,7 @@ def gen_md(r, n=2):
   out = []
   for _ in range(r.randrange(0, n + 1)):
     ns = r.choice(['', ':a', ':a:b', ':designer_policy_v0'])
-    k = r.choice(['k', 'k2', ''])
+    k = r.choice(['k', 'k2', '', 'k', 'b:k'])      # 'b:k' under ':a' spells the same path as 'k' under ':a:b'
     out.append((ns, k, 0, r.choice(['v', 'w', ''])))
   return out
 
@@ -692,7 +697,8 @@ class Gen:
         last = out[-1]
         if last[0] == 'CheckEarlyStop':
           last = (last[0], recycle) + tuple(last[2:])
-        apply_rpc(serv, holder, last)
+        if not _guarded(lambda: apply_rpc(serv, holder, last)):
+          return out   # the call hangs; the run of this sequence reports it
         for (o_, sid_) in list(studies):
           try:
             ids = [int(t.id) for t in proxy._inner.list_trials(study_name(o_, sid_))]
@@ -797,7 +803,15 @@ class Gen:
         out.append(('CheckEarlyStop', r.random() < 0.6, o, sid, tid, oracle))
       elif u < 0.72:
         tmd = [(r.randrange(1, mx + 1) if r.random() < 0.85 else mx + 3, kv) for kv in gen_md(r, 2)]
-        out.append(('UpdateMetadata', o, sid, gen_md(r, 2), tmd) + self.spelling())
+        sp_ = self.spelling()
+        if r.random() < 0.12:
+          # several writes of one (namespace, key) of one trial in one request, the trial named in alternating spellings: the
+          # last one wins
+          t_ = r.randrange(1, mx + 1)
+          base_ = (gen_md(r, 1) or [('', 'k', 0, 'v')])[0]
+          tmd = [(t_, tuple(base_[:3]) + (v_,)) for v_ in ('v1', 'v2', 'v3')][:r.choice([2, 3])]
+          sp_ = ('m',)
+        out.append(('UpdateMetadata', o, sid, gen_md(r, 2), tmd) + sp_)
       elif u < 0.745:
         out.append(('SetStudyState', o, sid, r.choice(['SS_ACTIVE', 'SS_INACTIVE', 'SS_COMPLETED', 'SS_ACTIVE', 'SS_ACTIVE'])))
       elif u < 0.765:
@@ -822,20 +836,88 @@ def fix_recycle(seq, recycle):
   return [(s[0], recycle) + tuple(s[2:]) if s[0] == 'CheckEarlyStop' else s for s in seq]
 
 
-def run_sequence(backend, seq, recycle=True, tmpdir=None, per_step=False):
+def _guarded(fn, timeout=None):
+  """Runs fn() on a worker thread; False when it does not return within the RPC timeout."""
+  import threading
+  box = []
+
+  def body():
+    try:
+      fn()
+    finally:
+      box.append(1)
+  th = threading.Thread(target=body, daemon=True)
+  th.start()
+  th.join(RPC_TIMEOUT if timeout is None else timeout)
+  if not box:
+    HUNG.append(th)
+    return False
+  return True
+
+
+def run_sequence(backend, seq, recycle=True, tmpdir=None, per_step=False, timeout=None):
   """Runs seq on a fresh real servicer.
 
   Returns (steps, final snapshot, servicer); a step is (rpc, outcome, trace, snapshot-after or None, pythia calls made).
+
+  The sequence runs on one worker thread (servicer construction included: an in-memory SQLite database belongs to
+  the thread that opened it). A call that does not return within RPC_TIMEOUT seconds ends the sequence with the
+  outcome ('Failed', 'ETimeout', ...): the servicer is abandoned (servicer None in the result) and the caller reports it.
   """
-  serv, holder, proxy = make_servicer(backend, recycle=recycle, tmpdir=tmpdir)
-  steps = []
-  for rpc in seq:
-    proxy.trace = []
-    c0 = holder.calls
-    out = apply_rpc(serv, holder, rpc)
-    steps.append((rpc, out, list(proxy.trace), snapshot(serv) if per_step else None, holder.calls - c0))
-  snap = snapshot(serv)
-  return steps, snap, serv
+  import threading
+  timeout = RPC_TIMEOUT if timeout is None else timeout
+  st = {'steps': [], 'beat': time.time(), 'current': None, 'done': False, 'snap': None, 'serv': None, 'exc': None,
+        'trace': None}
+
+  def body():
+    try:
+      serv, holder, proxy = make_servicer(backend, recycle=recycle, tmpdir=tmpdir)
+      st['serv'] = serv
+      for rpc in seq:
+        proxy.trace = []
+        st['trace'] = proxy
+        c0 = holder.calls
+        st['current'] = rpc
+        st['beat'] = time.time()
+        out = apply_rpc(serv, holder, rpc)
+        st['beat'] = time.time()
+        st['steps'].append((rpc, out, list(proxy.trace), snapshot(serv) if per_step else None, holder.calls - c0))
+      st['current'] = None
+      st['beat'] = time.time()
+      st['snap'] = snapshot(serv)
+    except BaseException as e:  # pylint: disable=broad-except
+      st['exc'] = e
+    finally:
+      st['done'] = True
+
+  th = threading.Thread(target=body, daemon=True)
+  th.start()
+  while True:
+    th.join(1.0 if timeout > 1 else timeout)
+    if st['done'] or not th.is_alive():
+      break
+    if time.time() - st['beat'] > timeout:
+      break
+  if st['exc'] is not None:
+    raise st['exc']
+  if st['done']:
+    return st['steps'], st['snap'], st['serv']
+  # the call in st['current'] hangs
+  import faulthandler, io, sys, traceback
+  frames = sys._current_frames().get(th.ident)
+  where = ''.join(traceback.format_stack(frames)[-6:]) if frames is not None else ''
+  HUNG.append(th)
+  steps = list(st['steps'])
+  rpc = st['current'] if st['current'] is not None else ('Snapshot',)
+  tr = list(st['trace'].trace) if st['trace'] is not None else []
+  steps.append((rpc, ('Failed', 'ETimeout', 'the call did not return within %g s; it waits at:\n%s' % (timeout, where)),
+                tr, None, 0))
+  last = None
+  for s_ in reversed(st['steps']):
+    if s_[3] is not None:
+      last = s_[3]
+      break
+  return steps, last, None
 
 
 def correspond(rep, pid, tag, runs, shard=60):
@@ -870,6 +952,28 @@ def correspond(rep, pid, tag, runs, shard=60):
                       '(coq/Model/Service.v) on this call sequence [%s]' % label.split('#')[0],
                       {'backend': label.split('#')[0], 'sequence': [s[0] for s in steps], 'outcomes': [s[1] for s in steps]})
         rep.corr_concrete = True
+    KINDS_ = {'C02': ('SuggestTrials _ _ _ | GetOperation _ _ _', 'a SuggestTrials / GetOperation response differs from the functional specification of '
+                      'suggestions (coq/Model/Service.v, the function theorem C02_suggest_functional is about)'),
+              'C06': ('SuggestTrials _ _ _ | GetOperation _ _ _ | CheckEarlyStop _ _ _', 'the answer to a suggestion / early-stopping call differs from the '
+                      'reference model of failure handling (coq/Model/Service.v: short deliveries handed out as they are, failures reported, operations finished)'),
+              'C07': (None, 'a response or the final stored data on this backend differ from the one model both backends are compared with')}
+    if pid in KINDS_:
+      # the first response that differs from the model is at a call this property is about: the sequence is a failing input
+      pat, text = KINDS_[pid]
+      pred = 'fun r : rpc => true' if pat is None else 'fun r : rpc => match r with %s => true | _ => false end' % pat
+      obs_hdr = HDR + ('Fixpoint seq_first (pred : rpc -> bool) (steps : list svc_step) (s : state) : bool * state :=\n'
+                       '  match steps with [] => (true, s) | (r, po, want, wtr) :: rest =>\n'
+                       '    let \'(s\', o, tr) := run (handler r) s po [] in\n'
+                       '    if outcome_eqb o want then seq_first pred rest s\' else (negb (pred r), s\') end.\n'
+                       'Definition obs_ok (c : svc_case) := let \'(ok, s) := seq_first (%s) (fst c) init_state in\n'
+                       '  ok%s.\n' % (pred, ' && snapshot_eqb (snapshot CLIENTS OWNERS s) (snd c)' if pat is None else ''))
+      sub = [cases[i] for i in bad[:20]]
+      obs_bad = C.run_cases(pid, tag + 'obs', obs_hdr, sub, 'obs_ok')
+      for j in obs_bad[:3]:
+        label, steps, snap = runs[bad[j]]
+        rep.violation('%s on this call sequence [%s]' % (text, label.split('#')[0]),
+                      {'backend': label.split('#')[0], 'sequence': [s[0] for s in steps], 'outcomes': [s[1] for s in steps]})
+        rep.corr_concrete = True
   return msg, bad
 
 
@@ -890,9 +994,11 @@ def pareto_sequence(r):
   seq.append(('SuggestTrials', 1, 1, 1, n, ('deliver', [r.randrange(100) for _ in range(n)], [], [])))
   order = list(range(1, n + 1))
   r.shuffle(order)
+  # now and then the values are neighbouring integers above 2^24: distinct doubles that single precision cannot tell apart
+  base_ = 16777216 if r.random() < 0.3 else 0
   for tid in order:
     u = r.random()
-    meas = [(m, r.randrange(0, 3)) for m, _ in metrics]
+    meas = [(m, base_ + r.randrange(0, 3)) for m, _ in metrics]
     if u < 0.12:
       meas = meas[:-1]                       # a metric is missing
     elif u < 0.18:
